@@ -39,6 +39,10 @@ pub struct ListCase {
     pub items: Vec<Item>,
     /// orders (as rotations / reversal) in which the same prepared elements are evaluated again
     pub replays: Vec<(u8, bool)>,
+    /// cycle the expanded list of pairs until it has this many entries (lists around the power-of-two sizes a
+    /// chunked / windowed implementation would use: 63..66, 127..130, 255..258, 511..514, 1023..1026)
+    #[serde(default)]
+    pub cycle_to: Option<u16>,
 }
 
 fn sel_strategy() -> BoxedStrategy<Sel> {
@@ -60,7 +64,12 @@ fn list_strategy() -> BoxedStrategy<ListCase> {
     // mostly short lists; one in six has 8..28 items (up to ~60 pairs) so that any internal batching /
     // windowing of long lists is exercised
     let items = prop_oneof![5 => proptest::collection::vec(item.clone(), 0..7), 1 => proptest::collection::vec(item, 8..28)];
-    (items, proptest::collection::vec((any::<u8>(), any::<bool>()), 0..3)).prop_map(|(items, replays)| ListCase { items, replays }).boxed()
+    let cyc = prop_oneof![
+        40 => Just(None),
+        1 => (prop_oneof![Just(64u16), Just(128u16), Just(256u16)], 0u16..4).prop_map(|(b, d)| Some(b - 1 + d)),
+        1 => (prop_oneof![Just(512u16), Just(1024u16)], 0u16..4).prop_map(|(b, d)| Some(b - 1 + d)),
+    ];
+    (items, proptest::collection::vec((any::<u8>(), any::<bool>()), 0..3), cyc).prop_map(|(items, replays, cycle_to)| ListCase { items, replays, cycle_to }).boxed()
 }
 
 fn sel_build<G: HasPool>(s: &Sel, neg: bool) -> (Z, Pt<G::F>) {
@@ -119,6 +128,16 @@ fn expand(c: &ListCase) -> Vec<PairM> {
             }
         }
     }
+    if let Some(n) = c.cycle_to {
+        if !out.is_empty() {
+            let base = out.clone();
+            let mut i = 0;
+            while out.len() < n as usize {
+                out.push(base[i % base.len()].clone());
+                i += 1;
+            }
+        }
+    }
     out
 }
 
@@ -166,16 +185,19 @@ fn check_list(c: &ListCase, info: &mut Info) -> Result<(), String> {
     if expo.is_zero() && joint != Fq12::one() {
         return Err("cancelling exponents must give exactly 1".into());
     }
-    // product of the individual pairings (product taken in the model)
+    if n > 60 {
+        info.class(format!("very-long-list:{}", if n < 100 { "63..66" } else if n < 200 { "127..130" } else if n < 400 { "255..258" } else if n < 800 { "511..514" } else { "1023..1026" }));
+    }
+    // product of the individual pairings (product taken in the model); skipped for the very long lists
     let mut prod = Fq12::one();
-    for i in 0..n {
+    for i in 0..(if n > 80 { 0 } else { n }) {
         let e = fq12_m(&cr("pairing", || Bls12::pairing(pc[i], qc[i]))?);
         if (pairs[i].1.is_inf() || pairs[i].3.is_inf()) && e != Fq12::one() {
             return Err(format!("pair {} contains the identity but its pairing is not 1", i));
         }
         prod = prod.mul(&e);
     }
-    if prod != joint {
+    if n <= 80 && prod != joint {
         return Err(format!("joint Miller loop over {} pairs differs from the product of the individual pairings", n));
     }
     // slice helper, and the two-pair helper
@@ -221,7 +243,7 @@ fn check_list(c: &ListCase, info: &mut Info) -> Result<(), String> {
 pub fn def() -> PropDef {
     PropDef {
         id: "C11",
-        rule: "lists of 0..~60 pairs (one list in six is long) ([a_i]g1, [b_i]g2) from points with known discrete logs (identity, small multiples, pool subgroup points, negations) built from items: single pairs, (P,Q),(-P,Q), three-term cancellations (P1,Q),(P2,Q),(-(P1+P2),Q), repeated pairs; the same prepared elements re-evaluated in rotated / reversed orders and on sub-lists. Oracle: published e(g1,g2) raised to sum a_i b_i mod r in the model; exactly 1 for cancelling lists; product of the individual pairings taken in the model; pairing_multi_product and (two pairs) pairing_product agree; empty list gives 1. Non-trivial = at least 2 pairs with an identity or a cancellation; distinct = distinct cases",
+        rule: "lists of 0..~60 pairs (one list in six is long; one in twenty is cycled to 63..66, 127..130, 255..258, 511..514 or 1023..1026 pairs) ([a_i]g1, [b_i]g2) from points with known discrete logs (identity, small multiples, pool subgroup points, negations) built from items: single pairs, (P,Q),(-P,Q), three-term cancellations (P1,Q),(P2,Q),(-(P1+P2),Q), repeated pairs; the same prepared elements re-evaluated in rotated / reversed orders and on sub-lists. Oracle: published e(g1,g2) raised to sum a_i b_i mod r in the model; exactly 1 for cancelling lists; product of the individual pairings taken in the model; pairing_multi_product and (two pairs) pairing_product agree; empty list gives 1. Non-trivial = at least 2 pairs with an identity or a cancellation; distinct = distinct cases",
         needs_pairing: true,
         subs: vec![Box::new(Sub { name: "pair-lists", rule: "final_exponentiation(miller_loop(list)) == published^(sum a_i b_i) == product of singles == helpers; prepared reuse", quick: 2_800, thorough: 25_000, strategy: || boxed(list_strategy()), check: check_list })],
         assumptions: {
